@@ -409,7 +409,13 @@ class ElementList(MutableSequence):
             list_index = self.list.index(old_child)
             by_name_index = self.indexes[old_child.name].index(old_child)
             self.remove(old_child)
-            self.insert(list_index, new_child, by_name_index)
+            try:
+                self.insert(list_index, new_child, by_name_index)
+            except Exception:
+                # the new child has been refused: put the old one back in its place
+                self.list.insert(list_index, old_child)
+                self.indexes[old_child.name].insert(by_name_index, old_child)
+                raise
 
     def create_element(self, name, traversal_parent=False, reference=None):
         """
@@ -484,18 +490,19 @@ class ElementList(MutableSequence):
 
     def _can_add_child(self, child):
         if self.element._is_valid_child(child):
+            # the child is checked before it is attached, so that a refused child is left untouched
+            # if validation is strict, check the child cardinality
+            if Validator.is_strict(self.element.validation_level):
+                min_rep, max_rep = self.element.repetitions.get(child.name, (0, -1))
+                if len(self.indexes.get(child.name, [])) + 1 > int(max_rep) and max_rep > -1:
+                    raise MaxChildLimitReached(self.element, child, max_rep)
+            if self.element.validation_level != child.validation_level:
+                raise OperationNotAllowed('Cannot add a child with a different validation_level')
+            if self.element.version != child.version:
+                raise OperationNotAllowed('Cannot add a child with a different HL7 version')
             if child.parent != self.element and child.traversal_parent != self.element:  # avoid infinite recursion
                 child.parent = self.element
             else:
-                # if validation is strict, check the child cardinality
-                if Validator.is_strict(self.element.validation_level):
-                    min_rep, max_rep = self.element.repetitions.get(child.name, (0, -1))
-                    if len(self.indexes.get(child.name, [])) + 1 > int(max_rep) and max_rep > -1:
-                        raise MaxChildLimitReached(self.element, child, max_rep)
-                if self.element.validation_level != child.validation_level:
-                    raise OperationNotAllowed('Cannot add a child with a different validation_level')
-                if self.element.version != child.version:
-                    raise OperationNotAllowed('Cannot add a child with a different HL7 version')
                 return True
         else:
             raise ChildNotValid(child, self.element)
